@@ -609,6 +609,10 @@ class _Gen(object):
             # == / != on one and the same object whose equality is not trivially True (NaN; an __eq__ with an
             # observable effect and a non-bool result): no identity shortcut may be taken
             self.features.add('self_equality')
+            if r.random() < 0.1:
+                # known finding (under EQUALITY_OPERATORS `!=` is lowered to not_(eq(...)): __ne__ is never called)
+                self.features.add('custom_ne')
+                return "(EQ1 != EQ1) == 'ne'"
             return r.choice(['NANV == NANV', 'NANV != NANV', 'bool(EQ1 == EQ1)', '[NANV][0] == NANV'])
         return 'tr(%d, %s) > 0' % (self.slot(), self.iexpr(depth - 1))
 
